@@ -742,6 +742,7 @@ func hclYamlExtra(t *tr) string {
 	b.WriteString(hyErrFlow(g, p))
 	b.WriteString(hyNilTests(g, p))
 	b.WriteString(hyR3Facts(g, p))
+	b.WriteString(hyR6Facts(g, p))
 	return b.String()
 }
 
